@@ -611,7 +611,7 @@ Fixpoint traverse (g : netlist) (fuel : nat) (n : net) (st : dfs) : tres :=
         match trav_loop (traverse g fuel') n (succs g n) st1 with
         | TOk st2 cy =>
             match cy with
-            | Some (start, p) => if net_eqb start n then TRaise p else
+            | Some (start, p) => if net_eqb start n || nmem start ex then TRaise p else
                 TOk (Dfs (rev ex ++ n :: checked st2)
                          (fold_left (fun b e => remove_net e b) ex (remove_net n (busy st2)))) cy
             | None =>
@@ -625,7 +625,8 @@ Fixpoint traverse (g : netlist) (fuel : nat) (n : net) (st : dfs) : tres :=
 Inductive verdict :=
 | VAccept
 | VCycle (path : list net)      (* CombinationalCycle, len(cycle.path) entries *)
-| VAssert                       (* `assert traverse(net) is None` failed: bare AssertionError *)
+| VAssert                       (* `assert traverse(net) is None` failed: bare AssertionError
+                                   (unreachable since the `cycle.start in extra_nets` fix: NirP.dfs_no_assert) *)
 | VFuel.
 
 Fixpoint top_loop (g : netlist) (fuel : nat) (roots : list net) (st : dfs) : verdict :=
@@ -655,6 +656,8 @@ Definition check_cycles (g : netlist) : verdict :=
 (* every net mentioned by an edge is a net of the netlist *)
 Definition wf_netlist (g : netlist) : bool :=
   forallb (fun n => forallb (fun m => nmem m (all_nets g)) (succs g n)) (all_nets g).
+(* "Cell 0 is always Top" (so the constant nets 0.0 / 0.1 are never outputs of a cell with edges) *)
+Definition top_first (g : netlist) : bool := match cells g with CTop _ :: _ => true | _ => false end.
 (* no cell whose outputs are merged into one DFS node (per-bit, or at most one output) *)
 Definition no_merge (g : netlist) : bool :=
   forallb (fun c => per_bit c || match outputs c 0 with [] | [_] => true | _ => false end) (cells g).
